@@ -21,7 +21,7 @@ RULE = ('each run = one sampled (logic, argument, options, tie-break order) whos
         'and verdict v; then (a) step-limit faults: every m in 1..n+1 (thorough) or a seeded subset of <=6 cut points (quick) '
         'plus None, 0 and -1; (b) deadline faults: 3 time-limited runs on a virtual clock with a jump past the limit at a seeded '
         'clock-read index (first step / after a fork / last step / model generation / after completion) and one stalled-clock run; '
-        '(c) one lifecycle history of <=12 API calls (step/build/finish/stepiter/setters/rule-set mutations/build_trunk/branch) '
+        '(c) one lifecycle history of <=12 API calls (step/build/finish/stepiter/setters/rule-set mutations/build_trunk/branch/hand-made branch with a node, so a tableau can start without a trunk) '
         'judged by the R6 state machine. distinct_nontrivial = distinct (logic, argument, fault kind, fault position) cases in '
         'which the fault actually cut the run short or the call sequence reached a started tableau')
 ASSUMPTIONS = [
